@@ -307,7 +307,7 @@ class Round:
         vals, n = self.vals, self.n
         model = None
         if self.drv:
-            model = self.drv.ask(dict(p='C15', vals=self.encs, cap=CAP, bin=BIN_OPS, un=UN_OPS))
+            model = self.drv.ask(dict(p='C15', vals=self.encs, cap=CAP, lim=GRAY_LO, bin=BIN_OPS, un=UN_OPS))
         hist = self.hist
         # ---- binary operators, all pairs
         for oi, op in enumerate(BIN_OPS):
